@@ -411,6 +411,9 @@ struct tcp_run
 	{
 		if (!accs[ci.l] || !socks[ci.into] || !accs[ci.l]->is_open()) { accept_busy[ci.l] = false; return; }
 		tcp::acceptor& l = *accs[ci.l];
+		// accepting into a socket object that still carries an earlier connection: the program closes it first
+		// (async_accept would do so itself)
+		if (sides[ci.into].sock && !sides[ci.into].closed && sides[ci.into].conn != 0) do_close(sides[ci.into]);
 		std::int64_t h = next_h++;
 		std::string into = ci.into, lname = ci.l; int cid = ci.id; int form = ci.form;
 		std::int64_t t = rec.sync();
@@ -454,7 +457,11 @@ struct tcp_run
 
 	void after_accept(std::string const& into, error_code const& ec)
 	{
-		for (auto const& c : conns) if (c.second.into == into) next_accept(c.second.l);
+		struct chain_next
+		{
+			tcp_run* r; std::string into;
+			~chain_next() { for (auto const& c : r->conns) if (c.second.into == into) { r->next_accept(c.second.l); break; } }
+		} chain{this, into};
 		if (ec || !socks[into]) return;
 		side& s = sides[into];
 		// the plan (what to write/read) was stored with the accept; the actual connection id is
